@@ -200,11 +200,16 @@ fn manual_run(iset: &mut InstructionSet, s: &mut PushState) -> (&'static str, i6
         if k > limit {
             return ("stepLimit", k);
         }
-        let before = s.size();
+        // the accounting is the harness's own: the nine typed stacks the growth cap is documented over
+        let items = |s: &PushState| {
+            s.bool_stack.size() + s.float_stack.size() + s.int_stack.size() + s.name_stack.size() + s.code_stack.size()
+                + s.exec_stack.size() + s.bool_vector_stack.size() + s.float_vector_stack.size() + s.int_vector_stack.size()
+        };
+        let before = items(s);
         if PushInterpreter::step(s, iset, &icache) {
             return ("noErrors", k);
         }
-        if s.size() > before + cap {
+        if items(s) > before + cap {
             return ("growthCap", k + 1);
         }
         k += 1;
